@@ -33,6 +33,7 @@ def load_known():
 def engine_env():
     e = dict(os.environ)
     e["VERIF_ROOT"] = ROOT
+    e["VERIF_REPO_SRC"] = os.path.join(build.REPO, "src")
     # fresh heap memory is filled with 0x55 (ASan's default 0xbe happens to look like the library's default option byte)
     e["ASAN_OPTIONS"] = "detect_leaks=0:abort_on_error=0:allocator_may_return_null=1:exitcode=99:malloc_fill_byte=85:max_malloc_fill_size=65536"
     e["UBSAN_OPTIONS"] = "halt_on_error=1:exitcode=98:print_stacktrace=0"
